@@ -1,7 +1,7 @@
 """Property -> rules.  The explanation/assumption texts end up in the evidence files."""
 from .rules import dtype, evalnodes, executor, aggregates, eqfaith, compiler_rules as cr
 from .rules import cursor_rules as cu, library_rules as lib, state_rules as st, grammar_rules as gr
-from .rules import table_rules as tb, clause_rules as cl, sx_exec as sx, sx_cursor as sxc, sx_compiler as sxk, sx_select as sxs, sx_pivot as sxp, sx_tables as sxt, sx_numberify as sxn, sx_state as sxst, sx_types as sxty, sx_library as sxl, sx_datebin as sxdb, sx_guards as sxg, sx_shell as sxsh
+from .rules import table_rules as tb, clause_rules as cl, sx_exec as sx, sx_cursor as sxc, sx_compiler as sxk, sx_select as sxs, sx_pivot as sxp, sx_tables as sxt, sx_numberify as sxn, sx_state as sxst, sx_types as sxty, sx_library as sxl, sx_datebin as sxdb, sx_guards as sxg, sx_shell as sxsh, sx_aggclass as sxag
 
 TRUSTED_ABSINT = [
     "Python/library semantics of operators, attributes, methods and whitelisted callables are obtained by applying "
@@ -53,7 +53,7 @@ PROPS = {
             "validated against the domain they are resolved in (R-IDXBOUND) and hidden grouping targets nameless and "
             "appended (R-HIDDEN). Does not decide numeric values of folds nor hashing/equality of key values."),
         'assumptions': TRUSTED_STRUCT,
-        'quick': [sxs.rule_aggproto, aggregates.rule_aggclass, eqfaith.rule_eqfaith, sxk.rule_idxbound, cr.rule_hidden],
+        'quick': [sxs.rule_aggproto, sxag.rule_aggclass, eqfaith.rule_eqfaith, sxk.rule_idxbound, cr.rule_hidden],
         'thorough': [sxs.rule_aggproto_deep, sxk.rule_idxbound_deep],
     },
     'C03': {
@@ -215,7 +215,7 @@ PROPS = {
             "into a fresh per-group zero (R-AGGCLASS). NOT decided (outside static reach): that Inventory.reduce / "
             "add_position / convert.* form a homomorphism - beancount's arithmetic over run-time lots and prices."),
         'assumptions': TRUSTED_STRUCT,
-        'quick': [sxst.rule_onceperrow, st.rule_shared, aggregates.rule_aggclass, sxl.rule_reduce],
+        'quick': [sxst.rule_onceperrow, st.rule_shared, sxag.rule_aggclass, sxl.rule_reduce],
         'thorough': [],
     },
     'C17': {
